@@ -119,8 +119,10 @@ def run(case):
     t = case['target']
     q, sharer = mk_target(t)
     out = [observe_state(q, sharer)]
+    used = []                      # (step, right-hand side object, its snapshot when it was built)
     for step, a in enumerate(case['steps']):
         rhs = mk_rhs(a['rhs'], t['cls'], t['item'], step)
+        used.append((step, rhs, rhs_snapshot(rhs)))
         idx = R.mk_index(a)
         try:
             with warnings.catch_warnings():
@@ -129,12 +131,22 @@ def run(case):
             out.append(observe_state(q, sharer))
         except Exception as e:
             out.append([C.exc_name(e), observe_state(q, sharer)])
+    # a right-hand side is an operand: no assignment, this one or a later one into the target, may change it
+    changed = [step for step, rhs, snap in used if rhs_snapshot(rhs) != snap]
+    out.append(['rhs-unchanged'] if not changed else ['rhs-CHANGED', changed[0]])
     return out
+
+
+def rhs_snapshot(rhs):
+    if isinstance(rhs, Qube):
+        return [(k, np.asarray(o._values_).tobytes(), np.shape(o._mask_), np.asarray(o._mask_).tobytes())
+                for k, o in [('', rhs)] + sorted(rhs._derivs_.items())]
+    return [('', np.asarray(rhs).tobytes())]
 
 
 def impl(case):
     """what the model is compared on: the object's and its derivatives' elements after every step"""
-    out = run(case)
+    out = run(case)[:-1]
     res = []
     for o in out:
         if isinstance(o[0], str):
@@ -219,6 +231,10 @@ def ref_step(t, st, a, step):
 def oracle(case):
     t = case['target']
     out = run(case)
+    rhs_flag = out.pop()
+    if rhs_flag[0] != 'rhs-unchanged':
+        return ('set:right-hand-side-changed', 'target[index] = rhs sequence on %s: the right-hand side object of step %d '
+                '(values, mask or a derivative) was changed by the assignments (%d steps)' % (describe(case), rhs_flag[1], len(case['steps'])))
     st = ref_state(t)
     sh0 = out[0][2]
     for step, a in enumerate(case['steps']):
@@ -473,6 +489,49 @@ def gen_cases(rng, tier):
         for key in rkeys:
             rhs['derivs'][key] = {'base': base[key], 'mask': G.rand_mask_rep(rng, rs)}
         cases.append(mk({'target': t, 'steps': [{'index': ents, 'bare': False, 'rhs': rhs}]}))
+    # integer-gap stream: a plain integer, ONE separating slice / None / Ellipsis, then an integer-array item with
+    # partly masked / out-of-range elements (NumPy puts the array axes first; DESIGN 8.2)
+    gaps = [['int', 'slice', 'iarr'], ['int', 'none', 'iarr'], ['int', 'ell', 'iarr'], ['slice', 'int', 'slice', 'iarr'],
+            ['int', 'slice', 'iarr', 'slice'], ['iarr', 'slice', 'int'], ['int', 'slice', 'vec2']]
+    for _ in range(2500 if thorough else 500):
+        kinds = rng.choice(gaps)
+        rank = sum(G.CONS[k] for k in kinds) + (1 if 'ell' in kinds else 0) + rng.choice([0, 0, 1])
+        shape = [rng.choice([2, 3, 4]) for _ in range(rank)]
+        t = {'cls': rng.choice(['Scalar', 'Scalar', 'Vector']), 'shape': shape, 'mask': G.rand_mask_rep(rng, shape, views=False),
+             'derivs': {}, 'shared': False}
+        t['item'] = rng.choice(R.ITEMS[t['cls']])
+        ents = G.concretise(rng, shape, kinds, p_mask=0.35, p_oob=0.15)
+        for e in ents:
+            if e['k'] == 'int':
+                e['m'] = False
+                e['v'] = rng.randint(0, 1)              # in range: only the array item carries masked entries
+            if e['k'] == 'iarr':
+                e['form'] = 'Scalar'
+                e['m'] = [rng.random() < 0.4 for _ in range(R.prod(e['shape']))]
+        try:
+            out_shape, _ = R.ref_select(shape, ents)
+        except R.RefError:
+            continue
+        rs = rng.choice([list(out_shape), [], list(out_shape[1:])])
+        rhs = {'shape': rs, 'mask': G.rand_mask_rep(rng, rs), 'derivs': {}}
+        cases.append(mk({'target': t, 'steps': [{'index': ents, 'bare': False, 'rhs': rhs}]}))
+    # history stream: a whole-object assignment (a[...] = b, b of the target's shape, with derivatives), then indexed
+    # assignments into the target; the earlier right-hand sides must stay as they were
+    for _ in range(1500 if thorough else 300):
+        c = gen_case(rng, rng.randint(1, 3), derivs=True)
+        t = c['target']
+        if not t['shape']:
+            continue
+        whole = {'index': [rng.choice([{'k': 'ell'}, {'k': 'bool', 'v': True, 'form': 'py', 'm': False},
+                                        {'k': 'slice', 'a': None, 'b': None, 'c': None}])], 'bare': True,
+                 'rhs': {'shape': list(t['shape']), 'mask': G.rand_mask_rep(rng, t['shape'], views=False),
+                         'derivs': {key: {'base': {'t': 100000, 'a': 200000}[key],
+                                          'mask': G.rand_mask_rep(rng, t['shape'], views=False)}
+                                    for key in rng.choice([['t'], ['t', 'a'], ['a']])}}}
+        for a in c['steps']:
+            if not a['rhs'].get('plain') and rng.random() < 0.7:
+                a['rhs']['derivs'] = {'t': {'base': 100000, 'mask': G.rand_mask_rep(rng, a['rhs']['shape'])}}
+        cases.append(mk({'target': t, 'steps': [whole] + c['steps']}))
     if thorough:
         for _ in range(600):
             cases.append(mk(gen_case(rng, 30, derivs=rng.random() < 0.3)))
